@@ -12,3 +12,5 @@ pub mod c01_int_conv;
 pub mod c02_float_conv;
 #[cfg(all(kani, feature = "c06"))]
 pub mod c06_ring_buffer;
+#[cfg(all(kani, feature = "c15"))]
+pub mod c15_types;
